@@ -137,6 +137,10 @@ class ExpandedTraceback:
         # whole file even while only a section of it is being executed
         innermost = traceback.extract_tb(exc_info[2])[-1]
         self.line_number = innermost[1] + line_offsets.get(innermost[0], 0)
+        # A SyntaxError in a student file is raised by whoever compiled it; the line it is about is in the exception
+        if (isinstance(exception, SyntaxError) and exception.lineno is not None
+                and exception.filename in student_files):
+            self.line_number = exception.lineno + line_offsets.get(exception.filename, 0)
         self.original_code_lines = original_code_lines
         self.student_files = student_files
 
